@@ -75,6 +75,9 @@ var c06 = Register("C06", "C06.text", func(a c06Args) *Violation {
 	if err != nil {
 		return violf("MarshalText(%s): %v", a.V, err)
 	}
+	if v := ownedBytes("MarshalText("+a.V.String()+")", mt, func() []byte { r, _ := d.MarshalText(); return r }); v != nil {
+		return v
+	}
 	pv := fmt.Sprintf("%v", d)
 	if n.Class != ref.Finite {
 		want := "NaN"
